@@ -63,10 +63,14 @@ def cases(ctx):
         out.append({"id": f"vec-{i}", "kind": "vector", "i": i})
     for i in range(n // 2):
         out.append({"id": f"hist-{i}", "kind": "history", "i": i})
+    out.append({"id": "contracts-repo-tests", "kind": "contracts", "i": 0})
     return out
 
 
 def run_case(case, ctx, res):
+    if case.get("kind") == "contracts":
+        from .. import contracts
+        return contracts.judge_repo_tests(res, ctx, ["test_array.py", "test_vector.py"], ("Array.to",))
     return globals()["_" + case["kind"]](case, ctx, res)
 
 
